@@ -97,6 +97,10 @@ func runC05(res *lib.Result, tier string, seed int64, args []string) error {
 			// methods: the implicit self, explicit parameters after it, a method called through ':' and '.'
 			src += scopeMethodBlock
 		}
+		if i%5 == 2 {
+			// the text ends with an identifier and no line break: the end of the document is a position on it
+			src = "local eofv = 1\n" + src + "return eofv"
+		}
 		progs = append(progs, src)
 	}
 	for pi, src := range progs {
